@@ -56,6 +56,16 @@ class Leave(Exception):
     pass
 
 
+class FalsyValue:
+    """return / started() values whose truth value is False are values like any other"""
+
+    def __bool__(self) -> bool:
+        return False
+
+    def __len__(self) -> int:
+        return 0
+
+
 class Mon:
     def __init__(self) -> None:
         self.lock = threading.Lock()
@@ -90,7 +100,8 @@ def gen_case(rng: random.Random, cfg: str) -> dict:
              c["kind"].startswith("start_task")]  # fmt: skip
     rng.shuffle(gated)
     return {"cfg": cfg, "threads": threads, "gate_order": gated,
-            "exit": rng.choice(["normal", "normal", "stop_midway", "stop_cancel", "exception"]),
+            "exit": rng.choice(["normal", "normal", "stop_midway", "stop_cancel", "exception",
+                                "stop_then_cancel"]),
             "stop_after": rng.randint(0, max(0, len(gated))),
             "delays": [rng.choice([0, 0.0005, 0.001, 0.002]) for _ in range(len(gated) + 4)],
             "inject_seed": rng.randrange(1 << 30)}  # fmt: skip
@@ -112,8 +123,13 @@ def execute(case: dict) -> dict:
     mon = Mon()
     all_calls = [c for t in case["threads"] for c in t]
     gates = {c["cid"]: threading.Event() for c in all_calls}
-    values = {c["cid"]: ("val", c["cid"], object()) for c in all_calls}
-    started_vals = {c["cid"]: ("started", c["cid"], object()) for c in all_calls}
+    values = {c["cid"]: FalsyValue() if c["cid"] % 3 == 2 else ("val", c["cid"], object())
+              for c in all_calls}  # fmt: skip
+    started_vals = {c["cid"]: FalsyValue() if c["cid"] % 3 == 1 else ("started", c["cid"], object())
+                    for c in all_calls}  # fmt: skip
+    # (exceptions stay truthy here: concurrent.futures.Future itself tests `if self._exception`
+    #  and hands a falsy exception object back as a None result - a CPython property of the
+    #  futures the portal API is specified to return, nothing AnyIO decides)
     booms = {c["cid"]: Boom(c["cid"]) for c in all_calls}
     got: dict = {}  # cid -> what the caller observed
     futures: dict = {}
@@ -236,7 +252,8 @@ def execute(case: dict) -> dict:
         di = iter(case["delays"] + [0.001] * 100)
         time.sleep(0.002)
         for k, cid in enumerate(case["gate_order"]):
-            if k == case["stop_after"] and case["exit"] in ("stop_midway", "stop_cancel"):
+            if k == case["stop_after"] and case["exit"] in ("stop_midway", "stop_cancel",
+                                                            "stop_then_cancel"):
                 mon.ev("stop_calling")
                 try:
                     portal.call(portal.stop, case["exit"] == "stop_cancel")
@@ -244,6 +261,33 @@ def execute(case: dict) -> dict:
                     pass
 
                 mon.ev("stop_done")
+                if case["exit"] == "stop_then_cancel":
+                    # graceful stop first, then "now force it": the second stop can only
+                    # come from the loop side (a task started before the first stop).  The
+                    # gates stay shut until every running task has ended: bounded progress.
+                    time.sleep(next(di))
+                    running = [c["cid"] for c in all_calls
+                               if ("exec_start", c["cid"]) in mon.first
+                               and ("exec_end", c["cid"]) not in mon.first]  # fmt: skip
+                    if running:
+                        window("second_stop_with_cancel_remaining_while_tasks_running")
+                        out["nontrivial"] = True
+
+                    mon.ev("stop2_requested")
+                    second_stop.set()
+                    t0 = time.monotonic()
+                    while ("stop2_done", None) not in mon.first and time.monotonic() - t0 < 5:
+                        time.sleep(0.0005)
+
+                    tick0 = hb2["n"]
+                    while time.monotonic() - t0 < 5 and any(
+                        ("exec_end", cid) not in mon.first for cid in running
+                    ):
+                        time.sleep(0.0005)
+
+                    left = [cid for cid in running if ("exec_end", cid) not in mon.first]
+                    if left and ("stop2_done", None) in mon.first:
+                        mon.ev("stop2_did_not_cancel", None, left, hb2["n"] - tick0 > 50)
 
             time.sleep(next(di))
             f = futures.get(cid)
@@ -286,6 +330,23 @@ def execute(case: dict) -> dict:
             hb["n"] += 1
             await anyio.sleep(0.001)
 
+    hb2 = {"n": 0}
+    second_stop = threading.Event()
+
+    async def stopper() -> None:
+        """started before anything else; on request stops the portal a second time with
+        cancel_remaining=True, then keeps ticking (shielded) to prove the loop is alive"""
+        with anyio.CancelScope(shield=True):
+            while not second_stop.is_set() and not hb_stop.is_set():
+                await anyio.sleep(0.0005)
+
+            if second_stop.is_set():
+                await state["portal"].stop(True)
+                mon.ev("stop2_done")
+                while not hb_stop.is_set():
+                    hb2["n"] += 1
+                    await anyio.sleep(0.0005)
+
     threads: list = []
     portal_thread_names: list = []
     try:
@@ -294,6 +355,9 @@ def execute(case: dict) -> dict:
             with from_thread.start_blocking_portal("asyncio", opts) as portal:
                 state["portal"] = portal
                 portal.start_task_soon(heartbeat)
+                if case["exit"] == "stop_then_cancel":
+                    portal.start_task_soon(stopper)
+
                 portal_thread_names = [t for t in threading.enumerate() if "portal" in t.name]
                 threads = [threading.Thread(target=caller_thread, args=(calls,), daemon=True)
                            for calls in case["threads"]]  # fmt: skip
@@ -404,7 +468,7 @@ def execute(case: dict) -> dict:
             # ended with a cancellation; nobody else may ever see one
             if "CancelledError" not in rec["exc"]:
                 viol.append(("caller-got-unexpected-exception", {"cid": cid, "exc": rec["exc"]}))
-            elif kind != "coro_native_cancel" and case["exit"] not in ("stop_cancel", "exception"):
+            elif kind != "coro_native_cancel" and case["exit"] not in ("stop_cancel", "exception", "stop_then_cancel"):
                 viol.append(("call-cancelled-although-nobody-cancelled-it",
                              {"cid": cid, "kind": kind, "exit": case["exit"]}))  # fmt: skip
 
@@ -439,7 +503,7 @@ def execute(case: dict) -> dict:
         how = end[0][3] if end else None
         cancel_seq = mon.first.get(("future_cancel", cid))
         if f.cancelled():
-            if how == "returned" and cancel_seq is None and case["exit"] not in ("exception", "stop_cancel"):
+            if how == "returned" and cancel_seq is None and case["exit"] not in ("exception", "stop_cancel", "stop_then_cancel"):
                 viol.append(("future-cancelled-without-cause", {"cid": cid}))
         else:
             exc = f.exception()
@@ -456,8 +520,15 @@ def execute(case: dict) -> dict:
                 viol.append(("future-cancel-did-not-cancel-its-task", {"cid": cid}))
             elif nd:
                 out["inconclusive"] = "cancelled task did not end within 5 s but the loop was not running either"
-        elif how == "cancelled" and case["exit"] not in ("exception", "stop_cancel"):
+        elif how == "cancelled" and case["exit"] not in ("exception", "stop_cancel", "stop_then_cancel"):
             viol.append(("task-cancelled-although-its-future-was-not", {"cid": cid, "kind": kind}))
+
+    nd2 = [e for e in mon.log if e[1] == "stop2_did_not_cancel"]
+    if nd2 and nd2[0][4] is True:
+        viol.append(("second-stop-with-cancel_remaining-did-not-cancel-running-tasks",
+                     {"still_running": nd2[0][3]}))  # fmt: skip
+    elif nd2:
+        out["inconclusive"] = "tasks did not end within 5 s after the second stop but the loop was not ticking either"
 
     # join: every accepted task ended before the context exit returned
     if exit_end is not None:
